@@ -1,0 +1,6 @@
+//go:build !verif
+
+package webdoc
+
+// VerifSummary is only implemented in verification builds (build tag verif).
+func (doc *Document) VerifSummary() []interface{} { return nil }
